@@ -102,8 +102,8 @@ func (q *Queue) AddAfter(item interface{}, d time.Duration) {
 		// real clock only moves forward, so truncating (with a millisecond of slack) recovers the deadline
 		// even if this process was descheduled for most of a second in between (loaded machine).
 		due = time.Now().Add(d).Add(time.Millisecond).Truncate(time.Second)
-		if min := now.Add(time.Second); due.Before(min) {
-			due = min
+		if !due.After(now) {
+			due = now.Add(time.Second) // a deadline that is not in the future: next tick
 		}
 	}
 	if old, ok := q.delayed[key]; ok && !due.Before(old) {
